@@ -222,10 +222,17 @@ def require_actions(res: TLCResult, actions: list[str], what: str):
 
 
 def load_known():
-    if not KNOWN.exists():
-        return []
-    data = json.loads(KNOWN.read_text())
-    return data.get("findings", [])
+    """known_findings.json (the committed list) plus per-property fragments known_findings.d/*.json
+    (same format; merged into known_findings.json by tools/build_manifest.py)."""
+    out, seen = [], set()
+    files = ([KNOWN] if KNOWN.exists() else []) + sorted((VERIF / "known_findings.d").glob("*.json"))
+    for f in files:
+        data = json.loads(f.read_text())
+        for x in data.get("findings", []):
+            if x.get("id") not in seen:
+                seen.add(x.get("id"))
+                out.append(x)
+    return out
 
 
 def _get(case: dict, dotted: str):
